@@ -3434,10 +3434,12 @@ class FuncRemove(ValueFunc):
         element = args.get("element")
 
         if lst.isList() or lst.isSet() or lst.isMap():
-            lst.removeItem(element)
+            if element in lst.value:
+                lst.removeItem(element)
             return lst
         elif lst.isObject():
-            del lst.value[element.value]
+            if element.isString() and element.value in lst.value:
+                del lst.value[element.value]
             return lst
 
         raise CklRuntimeError(
